@@ -169,3 +169,124 @@ Theorem C20_pickle_restarts_stream :
     (setstate gen seed_gen load (getstate gen (snd (run_ops gen seed_gen randperm load os (post_init gen seed_gen load c)))))
   = consume gen randperm n (post_init gen seed_gen load c).
 Proof. exact pickle_restarts_stream. Qed.
+
+(* ---- the same about the Dataset / ReplayBufferDataset methods REGENERATED FROM THE SOURCE (gen/DatasetGen.v, harness/data2coq.py against model/TorchData.v; proofs/DatasetGenEq.v) ---- *)
+From TV Require Import model.Dataset model.TorchData gen.DatasetGen proofs.DatasetProofs proofs.DatasetGenEq.
+(* Dataset(path, batch_size, batches, seed) [attrs __init__ + __attrs_post_init__] = post_init *)
+Theorem C20_source_new_eq :
+  forall (gen : Type) (seed_gen : Z -> gen) (load : list Z -> tdict) (path : list Z) (bs : Z) (batches : option Z) (seed : Z),
+  dict_ok (load path) ->
+  exists o : dsobj gen,
+    ds_new gen seed_gen load path bs batches seed = Ok o /\
+    live gen o (prepared load path bs batches) (seed_gen seed) /\
+    cfg_of gen o = mkConfig path bs batches seed /\
+    abs gen o (prepared load path bs batches) (seed_gen seed) = post_init gen seed_gen (hload load) (mkConfig path bs batches seed).
+Proof. exact gen_new_eq. Qed.
+(* _next_epoch = next_epoch: ONE randperm answer indexes every field *)
+Theorem C20_source_next_epoch_eq :
+  forall (gen : Type) (randperm : gen -> nat -> list nat * gen),
+  (forall (g : gen) (n : nat), Permutation (fst (randperm g n)) (seq 0 n)) ->
+  forall (o : dsobj gen) (d : tdict) (g : gen), live gen o d g -> wf_dict d ->
+  let p := fst (randperm g (nrows (erase d))) in
+  let g' := snd (randperm g (nrows (erase d))) in
+  ds_next_epoch gen randperm o = Ok (shuffled_dict d p, set_generator o g') /\
+  (erase (shuffled_dict d p), abs gen (set_generator o g') d g') = next_epoch gen randperm (abs gen o d g).
+Proof. exact gen_next_epoch_eq. Qed.
+(* fastforward_epochs(n) = fastforward (any integer n; negative n: no effect) *)
+Theorem C20_source_fastforward_eq :
+  forall (gen : Type) (randperm : gen -> nat -> list nat * gen),
+  (forall (g : gen) (n : nat), Permutation (fst (randperm g n)) (seq 0 n)) ->
+  forall (o : dsobj gen) (d : tdict) (g : gen) (n : Z), live gen o d g -> wf_dict d ->
+  exists g' : gen,
+    ds_fastforward_epochs gen randperm o n = Ok (set_generator o g') /\
+    abs gen (set_generator o g') d g' = fastforward gen randperm (Z.to_nat n) (abs gen o d g).
+Proof. exact gen_fastforward_eq. Qed.
+(* list(ds) [__iter__ completely consumed] = iter, for batch_size >= 1 *)
+Theorem C20_source_iter_eq :
+  forall (gen : Type) (randperm : gen -> nat -> list nat * gen),
+  (forall (g : gen) (n : nat), Permutation (fst (randperm g n)) (seq 0 n)) ->
+  forall (o : dsobj gen) (d : tdict) (g : gen), live gen o d g -> wf_dict d -> 1 <= o_batch_size o ->
+  exists (ys : list tdict) (g' : gen),
+    ds_iter gen randperm o = Ok (ys, set_generator o g') /\
+    (map erase ys, abs gen (set_generator o g') d g') = iter gen randperm (abs gen o d g).
+Proof. exact gen_iter_eq. Qed.
+(* __getstate__ / __setstate__ = getstate / setstate *)
+Theorem C20_source_pickle_eq :
+  forall (gen : Type) (seed_gen : Z -> gen) (load : list Z -> tdict) (o : dsobj gen) (d : tdict) (g : gen),
+  live gen o d g -> dict_ok (load (o_path o)) ->
+  exists (st : dsstate) (o' : dsobj gen),
+    ds_getstate gen o = Ok st /\ ds_setstate gen seed_gen load st = Ok o' /\
+    live gen o' (prepared load (o_path o) (o_batch_size o) (o_batches o)) (seed_gen (o_seed o)) /\
+    cfg_of gen o' = cfg_of gen o /\
+    abs gen o' (prepared load (o_path o) (o_batch_size o) (o_batches o)) (seed_gen (o_seed o))
+    = setstate gen seed_gen (hload load) (getstate gen (abs gen o d g)).
+Proof. exact gen_pickle_eq. Qed.
+(* cat_replay_buffer = cat_replay_buffer *)
+Theorem C20_source_cat_eq :
+  forall (bufs : list tdict) (bs : Z) (f : option tdict), rb_dom bufs ->
+  exists b0 : tdict,
+    hd_error bufs = Some b0 /\
+    rb_cat_replay_buffer (mkRb bufs bs f) = Ok (merged b0 bufs) /\
+    erase (merged b0 bufs) = cat_replay_buffer (map erase bufs) /\ dict_ok (merged b0 bufs).
+Proof. exact gen_cat_eq. Qed.
+(* ReplayBufferDataset(bufs, bs, "cpu") and one completely consumed __iter__ = rb_epoch *)
+Theorem C20_source_rb_iter_eq :
+  forall (gen : Type) (randperm : gen -> nat -> list nat * gen),
+  (forall (g : gen) (n : nat), Permutation (fst (randperm g n)) (seq 0 n)) ->
+  forall (bufs : list tdict) (bs : Z) (g : gen), rb_dom bufs -> rb_wf (map erase bufs) -> 1 <= bs ->
+  let n := total_rows (hpos bufs) in
+  exists (o : rbobj) (ys : list tdict),
+    rb_new bufs bs = Ok o /\
+    rb_iter gen randperm o g = Ok (ys, snd (randperm g n)) /\
+    map erase ys = rb_epoch (map erase bufs) (fst (randperm g n)) bs.
+Proof. exact gen_rb_iter_eq. Qed.
+(* C20 "each stored row exactly once ... keeping all fields of a row together", about the translated __iter__ *)
+Theorem C20_source_epoch_is_permutation :
+  forall (gen : Type) (randperm : gen -> nat -> list nat * gen),
+  (forall (g : gen) (n : nat), Permutation (fst (randperm g n)) (seq 0 n)) ->
+  forall (o : dsobj gen) (d : tdict) (g : gen), live gen o d g -> wf_dict d -> 1 <= o_batch_size o ->
+  exists (ys : list tdict) (g' : gen) (idx : list nat),
+    ds_iter gen randperm o = Ok (ys, set_generator o g') /\
+    Permutation idx (seq 0 (nrows (erase d))) /\
+    (forall (j : nat) (k : fname) (t : tensor), nth_error d j = Some (k, t) ->
+       length (t_rows t) = nrows (erase d) /\
+       Permutation (concat (map (batch_field j) (map erase ys))) (t_rows t) /\
+       concat (map (batch_field j) (map erase ys)) = map (fun i : nat => nth i (t_rows t) []) idx /\
+       Forall (fun b : list (fname * tensor) => map fst b = map fst d) ys).
+Proof. exact gen_epoch_is_permutation. Qed.
+(* C20 "fast-forwarding n epochs equals consuming n epochs", about the translated code *)
+Theorem C20_source_fastforward_eq_consume :
+  forall (gen : Type) (randperm : gen -> nat -> list nat * gen),
+  (forall (g : gen) (n : nat), Permutation (fst (randperm g n)) (seq 0 n)) ->
+  forall (o : dsobj gen) (d : tdict) (g : gen) (n : nat), live gen o d g -> wf_dict d -> 1 <= o_batch_size o ->
+  exists o' : dsobj gen,
+    ds_fastforward_epochs gen randperm o (Z.of_nat n) = Ok o' /\ gconsume gen randperm n o = Ok o'.
+Proof. exact gen_fastforward_eq_consume. Qed.
+(* C20 "a pickled and restored dataset restarts the same stream": unpickling IS construction *)
+Theorem C20_source_pickle_restarts :
+  forall (gen : Type) (seed_gen : Z -> gen) (load : list Z -> tdict) (o : dsobj gen),
+  ds_setstate gen seed_gen load (state_of o) = ds_new gen seed_gen load (o_path o) (o_batch_size o) (o_batches o) (o_seed o).
+Proof. exact gen_pickle_restarts. Qed.
+(* C20 "the padding is marked by the mask", about the translated cat_replay_buffer *)
+Theorem C20_source_merge_padding :
+  forall (bufs : list tdict) (bs : Z) (f : option tdict), rb_dom bufs ->
+  let W := maxwidth (hpos bufs) in
+  exists (flat : tdict) (P M : tensor),
+    rb_cat_replay_buffer (mkRb bufs bs f) = Ok flat /\
+    d_get flat S_positions = Ok P /\ d_get flat S_mask = Ok M /\
+    P = mkT INT64 [Z.of_nat W] (concat (map (map (pad W)) (hpos bufs))) /\
+    M = mkT BOOL [Z.of_nat W] (concat (map (map (pad W)) (hmsk bufs))) /\
+    (forall r : row, In r (concat (hpos bufs)) -> (length r <= W)%nat) /\
+    erase flat = cat_replay_buffer (map erase bufs).
+Proof. exact gen_merge_padding. Qed.
+(* C20 for the translated ReplayBufferDataset.__iter__ *)
+Theorem C20_source_rb_epoch_is_permutation :
+  forall (gen : Type) (randperm : gen -> nat -> list nat * gen),
+  (forall (g : gen) (n : nat), Permutation (fst (randperm g n)) (seq 0 n)) ->
+  forall (bufs : list tdict) (bs : Z) (g : gen), rb_dom bufs -> rb_wf (map erase bufs) -> 1 <= bs ->
+  exists (o : rbobj) (ys : list tdict) (g' : gen),
+    rb_new bufs bs = Ok o /\ rb_iter gen randperm o g = Ok (ys, g') /\
+    (forall (j : nat) (k : fname) (rows : list row),
+       nth_error (cat_replay_buffer (map erase bufs)) j = Some (k, rows) ->
+       Permutation (concat (map (batch_field j) (map erase ys))) rows).
+Proof. exact gen_rb_epoch_is_permutation. Qed.
